@@ -490,6 +490,10 @@ class Interp:
         for a in e.args:
             if isinstance(a, ast.Starred):
                 v = self.eval(frame, a.value)
+                v2 = self.ctx.from_val(v) if isinstance(v, SV) else v
+                if isinstance(v2, SV) and isinstance(v2.ty, TSeq):
+                    args.append(StarArg(v2))
+                    continue
                 args.extend(self.iterate_concrete(v))
             else:
                 args.append(self.eval(frame, a))
@@ -735,26 +739,7 @@ class Interp:
         if z3.is_int_value(cidt):
             k = reg.by_id[cidt.as_long()]
             return reg.is_sub(k, cls)
-        key = cidt.sexpr()
-        known = ctx.ghost.setdefault(("symcls", key), [])
-        kid = reg.cid(cls)
-        if cls not in known:
-            # instantiate the lattice facts between cls and every class already related to this symbolic class
-            base = ExternalRef("BaseException")
-            for other in known + [base]:
-                if other == cls:
-                    continue
-                oid = reg.cid(other)
-                if reg.is_sub(cls, other):
-                    ctx.assume(z3.Implies(isa(cidt, kid), isa(cidt, oid)))
-                if reg.is_sub(other, cls):
-                    ctx.assume(z3.Implies(isa(cidt, oid), isa(cidt, kid)))
-            known.append(cls)
-            # the unknown class may BE one of the named classes: then its subclass facts are the concrete ones
-            for k1 in known + [base]:
-                for k2 in known + [base]:
-                    ctx.assume(z3.Implies(cidt == reg.cid(k1), isa(cidt, reg.cid(k2)) == reg.is_sub(k1, k2)))
-        return isa(cidt, kid)
+        return ctx.isa_formula(cidt, cls)
 
     def sym_exception(self, bound_cls, label="exc"):
         """a fresh exception object whose class is an unknown subclass of bound_cls"""
